@@ -606,7 +606,7 @@ pub fn run(cfg: &RunCfg) -> u8 {
     println!(
         "simctl: {} evaluations, {} distinct signatures ({} non-trivial), {} seam events, {} violations, {} known findings, {:.1}s",
         total.evals,
-        total.sigs.len(),
+        total.sigs.len().max(total.sigs_nontrivial.len()),
         total.sigs_nontrivial.len(),
         total.seam_events,
         reported.len(),
@@ -660,7 +660,7 @@ fn evidence(
             "distinct_nontrivial": distinct_nontrivial,
             "rule": "one evaluation = one simulated run (one codec arm, one width, 1-4 records through producer -> medium -> consumer, or one parser / generator call) or one point of the single-fault sweep; every choice derives from VERIF_SEED via splitmix64(seed, stage, index) -> xoshiro256**. distinct = number of different coverage signatures (arm, codec, flavour, width class, value class, configuration, set of fault kinds that actually fired, damage locus, codec knobs, per-operation outcome letters); non-trivial = at least one fault fired or a non-zero value / non-empty text was involved",
             "samples": samples,
-            "distinct_signatures_total": total.sigs.len(),
+            "distinct_signatures_total": total.sigs.len().max(total.sigs_nontrivial.len()),
             "distinct_counts_are_lower_bounds": total.sigs_saturated,
             "simulated_runs": total.runs,
             "runs_per_hour": if wall > 0.0 { (total.evals as f64 / wall * 3600.0) as u64 } else { 0 },
